@@ -3,6 +3,7 @@
   Model: ILV.Model.KStep (KG lifecycle + shard naming + restart, as a step system).
 -/
 import ILV.Lemmas.KStep
+import ILV.Gen.C17
 namespace ILV.Props.C17
 open ILV ILV.KStep
 
@@ -85,5 +86,61 @@ theorem C17_isolation_live (st st' : State) (t : Tid) (a b : Name) (rest : List 
   step_isolated hs htodo htarget hb
 
 example : target (.ins (n "a") (n "r") 1) = some (n "a") := rfl
+
+/-! ### file names
+
+  `metaFile shard = sanitize shard ++ ".json"` is what `save_shard_meta` / `delete_shard` compute today.
+  `ILV.Gen.C17.fileTable` is regenerated on every run from the *current* code: for ~600 shard names of the
+  systematic alphabet (every printable ASCII punctuation character leading / trailing / between / doubled,
+  names differing only after it, case variants, unicode, 128-byte names, dotted file-like names) the file
+  that `FilePersist::ensure_shard` really creates. -/
+
+def toName (l : List Nat) : Name := l.map Char.ofNat
+
+/-- The code's file-name function *is* the model's, on the whole alphabet. A change of the path
+    construction in the code (e.g. `Path::with_extension`, which cuts a name at its last dot) changes the
+    regenerated table and breaks this obligation. -/
+theorem C17_file_table_matches_model :
+    Gen.C17.fileTable.all (fun row => metaFile (toName row.1) == toName row.2) = true := by decide +kernel
+
+example : Gen.C17.fileTable.length ≥ 500 := by decide +kernel
+
+/-- The model's function maps distinct shard names to distinct files whenever neither name contains
+    `_` or `/` — in particular for every dotted / hyphenated / spaced / case-variant / unicode sibling
+    family of the alphabet (`v1.0:r` ≠ `v1.1:r` ≠ `v1:r`). The excluded names are exactly the pre-existing
+    `sanitize_name` collision family (`C17_names_refuted`). -/
+theorem C17_file_names_distinct_partial (a b : Name) (ha : a.all safeChar = true) (hb : b.all safeChar = true)
+    (h : metaFile a = metaFile b) : a = b := metaFile_inj a b ha hb h
+
+example : metaFile (shardName (n "v1.0") (n "r")) ≠ metaFile (shardName (n "v1.1") (n "r")) := by decide
+example : metaFile (shardName (n "v1.0") (n "r")) ≠ metaFile (shardName (n "v1") (n "r")) := by decide
+example : metaFile (shardName (n "v1.0") (n "r")) = n "v1.0_r.json" := by decide
+example : shardFile (n "a_b") (n "c") = shardFile (n "a") (n "b_c") := by decide
+
+/-- Restart/isolation at the persist layer under the decidable hypothesis "file names of distinct shards
+    are distinct" (`distinctFiles names`, all shards of the map and the one operated on being in `names`):
+    `ensure_shard`, `append`, `flush` and `delete_shard` of one shard keep every shard the owner of the
+    metadata file at its name (with its batches) — so saving or dropping one KG's shards never overwrites or
+    unlinks a sibling's metadata — and start-up's `load_shards` then recovers every shard with exactly its
+    flushed batches. -/
+theorem C17_shard_files_partial (st : State) (names : List Name) (s : Name) (u : Upd)
+    (hd : distinctFiles names = true) (hmem : ∀ s', (lookup s' st.mem).isSome = true → s' ∈ names) (hs : s ∈ names)
+    (h : Owns st) :
+    Owns (ensureShard st s) ∧ Owns (flushShard st s) ∧ Owns (deleteShard st s) ∧
+    ((lookup s st.mem).isSome = true → Owns (appendUpd st s u)) ∧
+    (∀ s' sh, lookup s' st.mem = some sh →
+      (s', ({ batches := sh.batches, buffer := [] } : ShardMem)) ∈ st.files.map (fun f => (f.2.1, ({ batches := f.2.2, buffer := [] } : ShardMem)))) := by
+  have hi := fileInj_of_distinct hd hmem hs
+  exact ⟨owns_ensureShard h hi, owns_flushShard h hi, owns_deleteShard h hi, fun hsome => owns_appendUpd h hsome,
+         fun s' sh hl => owns_load h s' sh hl⟩
+
+/-- the hypothesis is met by dotted siblings … -/
+example : distinctFiles [shardName (n "v1.0") (n "r"), shardName (n "v1.1") (n "r"), shardName (n "v1") (n "r.0"), shardName (n "v1.0") (n "r.1")] = true := by decide
+/-- … and fails exactly for the known twins, where ownership is lost: after both inserts the file of
+    `a_b:c` holds the metadata of `a:b_c` -/
+example : distinctFiles [shardName (n "a_b") (n "c"), shardName (n "a") (n "b_c")] = false := by decide
+example : lookup (metaFile (shardName (n "a_b") (n "c")))
+    (runSeq [.create (n "a_b"), .create (n "a"), .ins (n "a_b") (n "c") 1, .ins (n "a") (n "b_c") 2]).files
+    = some (shardName (n "a") (n "b_c"), []) := by decide
 
 end ILV.Props.C17
